@@ -763,6 +763,10 @@ def build(ir):
     if not inputs:
       return None
     outputs = [(f'out{k}', handles[h]) for k, h in enumerate(out_handles)]
+    if sub.get('dupout'):
+      # the same tensor exported twice (schema-valid; e.g. one value returned
+      # under two names)
+      outputs.append((f'out{len(outputs)}', outputs[0][1]))
     if sub.get('ioorder') == 'rev':
       # subgraph inputs/outputs listed in the opposite order (e.g. the int32
       # ids input before the float input)
